@@ -7,7 +7,7 @@ import numpy as np
 from . import common
 
 PROP = "C15"
-MODULES = ["PdsVerif.Props.C15"]  # imports Lemmas.Tensor, Lemmas.Post (helper lemmas; same forbidden-token grep)
+MODULES = ["PdsVerif.Props.PostArithTie", "PdsVerif.Props.C15"]  # imports Lemmas.Tensor, Lemmas.Post (helper lemmas; same forbidden-token grep)
 MODEL_MODULES = ["PdsVerif.Model.Tensor", "PdsVerif.Model.Post"]
 REQUIRED = [
     "PdsVerif.C15." + n
@@ -17,7 +17,17 @@ REQUIRED = [
     deltas_error_iff deltas_pure ext_inside ext_edge ext_constant ext_wrap ext_reflect ext_symmetric
     stack_new_pos stack_2d_eq_nd stack_2d_path_eq_nd_path stack_shape stack_value stack_drop stack_pad
     stack_short stack_error_iff stack_pure""".split()
-]
+] + ["PdsVerif.PostArithTie." + n for n in ["base_len_eq", "baseFilter_eq_gen", "max_offset_eq", "slice_lo_eq", "slice_hi_eq",
+                                            "delta1d_eq_gen", "shape_facts"]]
+
+
+def translate(repo):
+    """arithmetic of Deltas (base filter, recursion, max_offset, slice bounds, pad widths) -> Generated/PostArith.lean
+    (theorems: Props/PostArithTie.lean)"""
+    from .translate import postarith
+    return postarith.generate(repo)
+
+
 RULE = (
     "small-integer tensors of rank 1-4 (dims 0-5 incl. singleton and empty non-filtered axes; the filtered / time "
     "axis 0-11 long), every axis / target_axis / time_axis in and slightly outside the legal range (negative too), "
